@@ -1,0 +1,214 @@
+//! Verification hooks (cargo feature `verif-hooks`).
+//!
+//! Nothing in this module changes the behaviour of the library. It only exposes thin
+//! wrappers that run the *production* session loops, framers and helpers over a
+//! caller-supplied in-memory transport so that an external harness can drive them
+//! deterministically (virtual time, scripted chunk delivery, arbitrary role strings).
+
+use std::num::NonZeroUsize;
+use std::sync::Arc;
+use std::time::Duration;
+
+use crate::client::message::Command;
+use crate::client::task::{ClientLoop, SessionError, StateChange};
+use crate::client::Channel;
+use crate::common::frame::{FrameWriter, FramedReader};
+use crate::common::phys::PhysLayer;
+use crate::decode::DecodeLevel;
+use crate::error::{RequestError, Shutdown};
+use crate::server::task::{AuthorizationType, ServerCommand, SessionTask};
+use crate::server::{AddressFilter, AuthorizationHandler, RequestHandler, ServerHandlerMap};
+
+/// Transport that the harness supplies
+pub trait VerifIo: tokio::io::AsyncRead + tokio::io::AsyncWrite + Unpin + Send {}
+impl<T> VerifIo for T where T: tokio::io::AsyncRead + tokio::io::AsyncWrite + Unpin + Send {}
+
+/// Which framing a session uses
+#[derive(Copy, Clone, Debug, PartialEq, Eq)]
+pub enum Framing {
+    /// MBAP (TCP/TLS)
+    Tcp,
+    /// RTU (serial)
+    Rtu,
+}
+
+fn writer(framing: Framing) -> FrameWriter {
+    match framing {
+        Framing::Tcp => FrameWriter::tcp(),
+        Framing::Rtu => FrameWriter::rtu(),
+    }
+}
+
+/// Run the production server session (`SessionTask::run`) over the supplied transport
+pub async fn run_server_session<T: RequestHandler>(
+    io: Box<dyn VerifIo>,
+    handlers: ServerHandlerMap<T>,
+    auth: Option<(Arc<dyn AuthorizationHandler>, String)>,
+    framing: Framing,
+    decode: DecodeLevel,
+    commands: tokio::sync::mpsc::Receiver<ServerCommand>,
+) -> RequestError {
+    let auth = match auth {
+        None => AuthorizationType::None,
+        Some((handler, role)) => AuthorizationType::Handler(handler, role),
+    };
+    let reader = match framing {
+        Framing::Tcp => FramedReader::tcp(),
+        Framing::Rtu => FramedReader::rtu_request(),
+    };
+    let mut phys = PhysLayer::new_verif(io);
+    SessionTask::new(handlers, auth, writer(framing), reader, commands, decode)
+        .run(&mut phys)
+        .await
+}
+
+/// Why a client session ended (mirror of the crate-private `SessionError`)
+#[derive(Copy, Clone, Debug, PartialEq, Eq)]
+pub enum SessionEnd {
+    /// I/O error
+    Io(std::io::ErrorKind),
+    /// framing error
+    BadFrame,
+    /// channel disabled
+    Disabled,
+    /// consecutive timeout limit reached
+    MaxTimeouts(usize),
+    /// all handles dropped or shutdown requested
+    Shutdown,
+}
+
+/// Outcome of waiting while failing requests (mirror of `Result<(), StateChange>`)
+#[derive(Copy, Clone, Debug, PartialEq, Eq)]
+pub enum WaitEnd {
+    /// the delay elapsed
+    Elapsed,
+    /// the channel was disabled
+    Disabled,
+    /// shutdown
+    Shutdown,
+}
+
+/// The production `ClientLoop`, persisting across sessions like it does inside the channel tasks
+pub struct VerifClient {
+    inner: ClientLoop,
+}
+
+/// Create a `Channel` handle and the production client loop behind it
+pub fn create_client(
+    framing: Framing,
+    decode: DecodeLevel,
+    max_timeouts: Option<NonZeroUsize>,
+    max_queued_requests: usize,
+) -> (Channel, VerifClient) {
+    let (tx, rx) = tokio::sync::mpsc::channel::<Command>(max_queued_requests);
+    let reader = match framing {
+        Framing::Tcp => FramedReader::tcp(),
+        Framing::Rtu => FramedReader::rtu_response(),
+    };
+    let inner = ClientLoop::new(rx.into(), writer(framing), reader, decode, max_timeouts);
+    (Channel { tx }, VerifClient { inner })
+}
+
+impl VerifClient {
+    /// `ClientLoop::run` over the supplied transport
+    pub async fn run_session(&mut self, io: Box<dyn VerifIo>) -> SessionEnd {
+        let mut phys = PhysLayer::new_verif(io);
+        match self.inner.run(&mut phys).await {
+            SessionError::IoError(x) => SessionEnd::Io(x),
+            SessionError::BadFrame => SessionEnd::BadFrame,
+            SessionError::Disabled => SessionEnd::Disabled,
+            SessionError::MaxTimeouts(x) => SessionEnd::MaxTimeouts(x),
+            SessionError::Shutdown => SessionEnd::Shutdown,
+        }
+    }
+
+    /// `ClientLoop::wait_for_enabled`
+    pub async fn wait_for_enabled(&mut self) -> Result<(), Shutdown> {
+        self.inner.wait_for_enabled().await
+    }
+
+    /// `ClientLoop::fail_requests_for`
+    pub async fn fail_requests_for(&mut self, duration: Duration) -> WaitEnd {
+        match self.inner.fail_requests_for(duration).await {
+            Ok(()) => WaitEnd::Elapsed,
+            Err(StateChange::Disable) => WaitEnd::Disabled,
+            Err(StateChange::Shutdown) => WaitEnd::Shutdown,
+        }
+    }
+
+    /// `ClientLoop::is_enabled`
+    pub fn is_enabled(&self) -> bool {
+        self.inner.is_enabled()
+    }
+}
+
+/// A frame produced by the production `FramedReader`
+#[derive(Clone, Debug, PartialEq, Eq)]
+pub struct VerifFrame {
+    /// transaction id (MBAP only)
+    pub tx_id: Option<u16>,
+    /// destination byte
+    pub destination: u8,
+    /// true if the destination was classified as broadcast
+    pub broadcast: bool,
+    /// function code + body
+    pub pdu: Vec<u8>,
+}
+
+/// Which parser a reader uses
+#[derive(Copy, Clone, Debug, PartialEq, Eq)]
+pub enum ReaderKind {
+    /// MBAP
+    Tcp,
+    /// RTU, server side
+    RtuRequest,
+    /// RTU, client side
+    RtuResponse,
+}
+
+/// The production `FramedReader` (parser + `ReadBuffer`) over the supplied transport
+pub struct VerifReader {
+    reader: FramedReader,
+    phys: PhysLayer,
+}
+
+impl VerifReader {
+    /// create a reader
+    pub fn new(kind: ReaderKind, io: Box<dyn VerifIo>) -> Self {
+        let reader = match kind {
+            ReaderKind::Tcp => FramedReader::tcp(),
+            ReaderKind::RtuRequest => FramedReader::rtu_request(),
+            ReaderKind::RtuResponse => FramedReader::rtu_response(),
+        };
+        Self {
+            reader,
+            phys: PhysLayer::new_verif(io),
+        }
+    }
+
+    /// `FramedReader::next_frame`
+    pub async fn next_frame(&mut self, decode: DecodeLevel) -> Result<VerifFrame, RequestError> {
+        let frame = self.reader.next_frame(&mut self.phys, decode).await?;
+        Ok(VerifFrame {
+            tx_id: frame.header.tx_id.map(|x| x.to_u16()),
+            destination: frame.header.destination.value(),
+            broadcast: frame.header.destination.is_broadcast(),
+            pdu: frame.payload().to_vec(),
+        })
+    }
+}
+
+/// `AddressFilter::matches`
+pub fn filter_matches(filter: &AddressFilter, addr: std::net::IpAddr) -> bool {
+    filter.matches(addr)
+}
+
+/// CRC-16/MODBUS as computed by the RTU framer
+pub fn rtu_crc(bytes: &[u8]) -> u16 {
+    crate::serial::frame::verif_crc(bytes)
+}
+
+pub use crate::tcp::server::verif_tracker::VerifTracker;
+
+#[cfg(feature = "enable-tls")]
+pub use crate::tcp::tls::server::verif_role::extract_role_from_der;
